@@ -147,6 +147,9 @@ def shaped_sets(rnd):
                     waves = [{"Key": k, "Para": "P", "HexCode": (k.upper().encode().hex() + "%03d" % i).upper()} for i, k in enumerate(keys)]
                     out.append({"IRSetID": rnd.choice(["DLK65863", "ELEC7001"]), "OnOffType": 1 if toggle else 0, "IRWaveList": waves,
                                 "shape": "%s swing=%s fans=%s order=%s" % ("toggle" if toggle else "plain", swing_where, fans, order)})
+    # sparse toggle sets: declared as toggle (OnOffType 1) with not a single entry under the toggle prefix
+    for s_ in [x for x in out if x["OnOffType"] == 1][::4]:
+        out.append(dict(s_, IRWaveList=[w for w in s_["IRWaveList"] if not w["Key"].startswith("on_")], shape=s_["shape"] + " no-prefixed-entries"))
     return out
 
 
